@@ -1769,9 +1769,10 @@ LEVEL_TEXT = (
     "handle stored in them point to them; no other root and no other block holds a handle to any of them; cloneFresh); "
     "clone_deep_history: after an executed clone, NO history of statements that do not mention root k and whose one-statement footprint "
     "is proved (StepFootprint op: root k, the cells of its blocks incl. rc, and the ownership are unchanged) changes the tree root k "
-    "denotes; StepFootprint is proved for drop, ctorLit, ctorType, ctorArr, ctorDic, copy, clone (stepFootprint_*: the statements that "
-    "re-create ANOTHER root — destroying whatever it held, incl. the clone's source — from literals, from a copy of or from a clone of "
-    "a Var under another root); clone_deep_reduction: step_footprint_full (all 22 statement kinds) implies clone_deep_exec_full; "
+    "denotes; StepFootprint is proved for all 9 statements on root variables (stepFootprint_rootOps: drop, ctorLit, ctorType, ctorArr, "
+    "ctorDic, ctorKV, ctorVars, copy, clone — the statements that re-create ANOTHER root, destroying whatever it held, incl. the clone's "
+    "source, from literals or from copies / a clone of Vars under other roots); clone_deep_reduction: step_footprint_full (all 22 "
+    "statement kinds) implies clone_deep_exec_full; "
     "(6b) converting accessors (extension round; hasV, getKeyV, hasTypeV, containsV are now model functions following the source's "
     "switch over the type tag, run by the driver): is_table (is(t) over all tags), conv_int, conv_number_integer (a NUMBER/FLOAT holding an "
     "int-range integer reads back the same through int, Long, double, bool and == the INT, both operand orders), conv_number_trunc "
@@ -1827,8 +1828,8 @@ LEVEL_NOTE = (
     "Constructors NOT covered: Var{{\"k\", v}, ..} (initializer_list<Obj>), nested initializer lists, Array<T>/Dic<T> for T other than "
     "int, double, String (harness), Var(const char*) with embedded NUL. "
     "Partial: clone_deep_full / clone_deep_exec_full / step_footprint_full (kept as `def ... : Prop`). Proved: ownership after the clone "
-    "(clone_isolated), stability over histories of statements with a proved footprint (clone_deep_history), the footprint of the 7 "
-    "root-re-creating statements, and the reduction of the rest (clone_deep_reduction). MISSING: StepFootprint for ctorKV, ctorVars and "
+    "(clone_isolated), stability over histories of statements with a proved footprint (clone_deep_history), the footprint of the 9 "
+    "statements on root variables, and the reduction of the rest (clone_deep_reduction). MISSING: StepFootprint "
     "for the 13 statements that start with an auto-creating target path (set*, app*, resize, remove*, clear, extend): the frame of "
     "resolveMut / relocate / opBody outside an owned set — i.e. in-place MUTATION of the original after a clone is still validated only "
     "by K (history generator: clone followed by mutations of either side and reads of the other; seeded change C04-r3 caught). "
